@@ -4,6 +4,7 @@ import (
 	"fmt"
 	"go/ast"
 	"go/constant"
+	"go/token"
 	"go/types"
 	"strings"
 )
@@ -461,4 +462,160 @@ func ruleR19d(c *Ctx) {
 		})
 	}
 	c.floor("R19d", "nested parses", 1, n)
+}
+
+// R19e: a helper that walks a subtree on the same state for a command and hands a value back
+// (eval, renderBlock) leaves the current-node mark where it found it, so that a failure after it -
+// e.g. in the template a {call} goes on to invoke - is reported at the command, not inside an operand.
+func ruleR19e(c *Ctx) {
+	p := c.pkg("soyhtml")
+	if p == nil {
+		return
+	}
+	info := p.TypesInfo
+	stObj := p.Types.Scope().Lookup("state")
+	wfd := c.mustFunc("soyhtml", "state.walk")
+	atfd := c.mustFunc("soyhtml", "state.at")
+	if stObj == nil || wfd == nil || atfd == nil {
+		return
+	}
+	walkFn, atFn := info.Defs[wfd.Name], info.Defs[atfd.Name]
+	var nodeFld *types.Var
+	st := stObj.Type().Underlying().(*types.Struct)
+	for i := 0; i < st.NumFields(); i++ {
+		if st.Field(i).Name() == "node" {
+			nodeFld = st.Field(i)
+		}
+	}
+	if nodeFld == nil {
+		c.fatalf("anchor: field node of soyhtml.state not found")
+		return
+	}
+	nr := newNoRet(c)
+	n := 0
+	for _, fd := range c.allFuncDecls("soyhtml") {
+		if fd == wfd || fd == atfd || fd.Recv == nil || recvTypeName(fd.Recv.List[0].Type) != "state" {
+			continue
+		}
+		if fd.Type.Results == nil || fd.Type.Results.NumFields() == 0 {
+			continue // commands themselves; only value-returning helpers are operands of a command
+		}
+		var recvObj types.Object
+		if len(fd.Recv.List[0].Names) == 1 {
+			recvObj = info.Defs[fd.Recv.List[0].Names[0]]
+		}
+		marks := false
+		ast.Inspect(fd.Body, func(x ast.Node) bool {
+			if call, ok := x.(*ast.CallExpr); ok {
+				if cal := calleeFunc(call, info); (cal == walkFn || cal == atFn) && recvIdentObj(call, info) == recvObj {
+					marks = true
+				}
+			}
+			return true
+		})
+		if !marks {
+			continue
+		}
+		n++
+		const dirty = 1
+		bad := false
+		var badPos token.Pos
+		res := runFlow(fd.Body, nr.forInfo(info), flowState{}, func(nd ast.Node, stt flowState, report bool) flowState {
+			// restoration: s.node = <something>
+			if as, ok := nd.(*ast.AssignStmt); ok {
+				for _, l := range as.Lhs {
+					if fieldOfExpr(l, info) == nodeFld {
+						stt["m"] = 0
+						return stt
+					}
+				}
+			}
+			ast.Inspect(nd, func(x ast.Node) bool {
+				if call, ok := x.(*ast.CallExpr); ok {
+					if cal := calleeFunc(call, info); (cal == walkFn || cal == atFn) && recvIdentObj(call, info) == recvObj {
+						stt["m"] = dirty
+					}
+				}
+				return true
+			})
+			return stt
+		})
+		for _, b := range res.exitBlocks() {
+			if blockEndsInNoReturn(b, nr.forInfo(info)) {
+				continue
+			}
+			if res.out[b]["m"]&dirty != 0 {
+				bad = true
+				if len(b.Nodes) > 0 {
+					badPos = b.Nodes[len(b.Nodes)-1].Pos()
+				}
+			}
+		}
+		key := c.declKey("soyhtml", fd) + "#restores-node-mark"
+		c.seen(c.declKey("soyhtml", fd))
+		if bad {
+			c.bad("R19e", key, badPos, "a path returns with the current-node mark left inside the subtree it walked: a later failure of the same command (for instance inside the template a {call} invokes after its params were evaluated) is reported at the operand's line instead of the command's")
+		} else {
+			c.ok("R19e", key, fd.Pos(), "every returning path puts the current-node mark back after walking the operand")
+		}
+	}
+	c.floor("R19e", "value-returning helpers that walk on the same state", 2, n)
+}
+
+// R19f: the scanner's error item carries the current scan position, unconditionally.
+func ruleR19f(c *Ctx) {
+	pf := getParseFacts(c)
+	if pf == nil {
+		return
+	}
+	n := 0
+	for fn, fd := range pf.funcs {
+		_ = fn
+		if fd.Recv == nil {
+			continue
+		}
+		// the error emitter: contains a send of an item literal whose kind is itemError
+		var sends []*ast.SendStmt
+		ast.Inspect(fd.Body, func(x ast.Node) bool {
+			if s, ok := x.(*ast.SendStmt); ok {
+				if cl, ok := ast.Unparen(s.Value).(*ast.CompositeLit); ok && len(cl.Elts) >= 2 {
+					if k := constObj(pf.info, cl.Elts[0]); k != nil && k.Name() == "itemError" {
+						sends = append(sends, s)
+					}
+				}
+			}
+			return true
+		})
+		if len(sends) == 0 {
+			continue
+		}
+		n++
+		key := c.declKey("parse", fd) + "#error-item-position"
+		ok := len(sends) == 1
+		detail := ""
+		if ok {
+			cl := ast.Unparen(sends[0].Value).(*ast.CompositeLit)
+			pos := exprKey(cl.Elts[1])
+			if !strings.Contains(pos, ".pos") || strings.Contains(pos, ".start") {
+				ok = false
+				detail = "its position is " + pos
+			}
+			// unconditional: the send is a top-level statement of the function
+			top := false
+			for _, s := range fd.Body.List {
+				if s == ast.Stmt(sends[0]) {
+					top = true
+				}
+			}
+			if !top {
+				ok = false
+				detail = "the position depends on a condition"
+			}
+		} else {
+			detail = fmt.Sprintf("%d different error items are built", len(sends))
+		}
+		c.check(ok, "R19f", key, fd.Pos(), "the error item is positioned at the current scan offset, like every other item",
+			"the scanner's error item is not simply positioned at the current scan offset ("+detail+"): lexical errors are reported on the wrong line for some inputs")
+	}
+	c.floor("R19f", "scanner error emitters", 1, n)
 }
